@@ -220,29 +220,25 @@ fn c12_new_accepts_exactly_wide() {
 }
 
 
-/// Acceptance only, pair count by pair count: for EACH concrete N in 1..=NE (NE = @@NE@@) every header of N pairs
-/// (symbolic offsets and tags) in front of a 4-byte payload.  The byte length is concrete, so the checks' loops
-/// unroll exactly; this reaches pair counts the symbolic-length harnesses above cannot afford.
+/// Acceptance only, ONE pair count: every header of exactly NE = @@NE@@ pairs (symbolic offsets and tags) in front
+/// of a 4-byte payload.  The byte length is concrete, so the checks' loops unroll exactly; this reaches a pair count
+/// beyond one 8-element block of tags at a small cost, whatever shape the monotonicity scan takes.
 const NE: usize = @@NE@@;
 
 #[kani::proof]
 #[kani::unwind(@@UE@@)]
-fn c12_new_accepts_exactly_each_n() {
-    let mut n = 1usize;
-    while n <= NE {
-        let mut buf: [u8; 8 * NE + 4] = kani::any();
-        let c = (n as u32).to_le_bytes();
-        buf[0] = c[0];
-        buf[1] = c[1];
-        buf[2] = c[2];
-        buf[3] = c[3];
-        let b = &buf[..8 * n + 4];
-        let r = MessageView::new(Cow::Borrowed(b)); // must not panic
-        assert!(r.is_ok() == format_allows(b));
-        kani::cover!(n == NE && r.is_ok());
-        kani::cover!(n == NE && matches!(r, Err(DecodingError::NonMonotonicTags(_))));
-        kani::cover!(n == NE && matches!(r, Err(DecodingError::NonMonotonicOffsets(_))));
-        kani::cover!(n == NE && matches!(r, Err(DecodingError::TruncatedPayload(_))));
-        n += 1;
-    }
+fn c12_new_accepts_exactly_fixed_n() {
+    let mut buf: [u8; 8 * NE + 4] = kani::any();
+    let c = (NE as u32).to_le_bytes();
+    buf[0] = c[0];
+    buf[1] = c[1];
+    buf[2] = c[2];
+    buf[3] = c[3];
+    let b = &buf[..];
+    let r = MessageView::new(Cow::Borrowed(b)); // must not panic
+    assert!(r.is_ok() == format_allows(b));
+    kani::cover!(r.is_ok());
+    kani::cover!(matches!(r, Err(DecodingError::NonMonotonicTags(_))));
+    kani::cover!(matches!(r, Err(DecodingError::NonMonotonicOffsets(_))));
+    kani::cover!(matches!(r, Err(DecodingError::TruncatedPayload(_))));
 }
